@@ -51,7 +51,7 @@ CASE_TIMEOUT_S = 120
 
 CH_KINDS = ['cb_session', 'process', 'run', 'tcp', 'sftp']
 SRV = ['echo', 'exit_now', 'close_now', 'abort_now', 'hang', 'slow_open',
-       'flood_exit', 'flood_eof_close']
+       'flood_exit', 'flood_eof_close', 'stall_eof_close', 'stall_close']
 CLI_ACTS = ['write', 'write_big', 'eof', 'close', 'abort', 'read',
             'wait_closed', 'drain', 'settle', 'close_wait']
 ENDINGS = ['close', 'abort', 'peer_close', 'peer_disconnect', 'none',
@@ -80,6 +80,21 @@ def gen_cases(tier, seed):
                               'chunk': 'all',
                               'stride': 1 if tier == 'thorough' else 3,
                               'cseed': 11})
+    # directed: drain() blocked by a peer that stopped reading, which then
+    # sends EOF and/or closes
+    for kind in ('process', 'tcp'):
+        for srv in ('stall_eof_close', 'stall_close'):
+            for acts in (['write_big', 'drain'],
+                         ['write_big', 'write_big', 'drain', 'read'],
+                         ['write_big', 'drain', 'close_wait']):
+                cases.append({'chans': [{'kind': kind, 'srv': srv,
+                                         'acts': acts, 'window': None,
+                                         'pause': False}],
+                              'ending': 'close_then_wait',
+                              'concurrent': True, 'end_when': 'done',
+                              'chunk': 'all',
+                              'stride': 1 if tier == 'thorough' else 3,
+                              'cseed': 12})
     for i in range(n):
         chans = []
         for _ in range(rng.choice([1, 1, 2, 2, 3, 4])):
@@ -164,6 +179,15 @@ class _Srv(apps.RecServer):
             from asyncssh.stream import SSHServerStreamSession
             return SSHServerStreamSession(None, asyncssh.SFTPServer, 3)
         sess.behaviour = beh
+        if beh.startswith('stall'):
+            # a peer that stops reading behind a small window: the client's
+            # writes pile up and its drain() blocks
+            sess.pause_plan = [(1, None)]
+            if ctx.get('tr') is not None:
+                ctx['started'].add(sess)
+                ctx['tr'].call('srv_' + sess.name,
+                               _server_session_task(ctx, sess))
+            return self.conn.create_server_channel(window=1024), sess
         if beh.startswith('flood') and ctx.get('tr') is not None:
             # drive this one at once: the point of the behaviour is that the
             # peer's flood and close arrive before the client acts
@@ -203,6 +227,13 @@ async def _server_session_task(ctx, sess):
             chan.exit(3)
         elif beh == 'close_now':
             chan.close()
+        elif beh in ('stall_eof_close', 'stall_close'):
+            # wait until the client has filled the window, then go away
+            await ctx['tr'].env.settle()
+            if not sess.lost:
+                if beh == 'stall_eof_close':
+                    chan.write_eof()
+                chan.close()
         elif beh == 'flood_exit':
             for n in sess.flood:
                 chan.write('z' * n)
@@ -233,12 +264,31 @@ class Tracker:
     def __init__(self, env):
         self.env = env
         self.calls = []        # [name, task]
+        self.chans = {}        # task -> channel it operates on
 
-    def call(self, name, coro):
+    def call(self, name, coro, chan=None):
         t = asyncio.ensure_future(coro)
         self.env.san.harness_tasks.add(t)
         self.calls.append((name, t))
+        if chan is not None:
+            self.chans[t] = chan
         return t
+
+    def pending_on_closing(self):
+        """Calls still pending on a channel whose close has begun (locally
+           or by the peer): nothing is left that they could wait for"""
+
+        out = []
+        for n, t in self.calls:
+            ch = self.chans.get(t)
+            if not t.done() and ch is not None:
+                try:
+                    closing = ch.is_closing()
+                except Exception:
+                    closing = False
+                if closing:
+                    out.append(n)
+        return out
 
     def pending(self):
         # 'srv_*' are the harness's own server-side drivers (they wait for
@@ -317,21 +367,21 @@ async def _client_channel(ctx, tr, conn, i, spec, rng):
             elif a == 'abort':
                 chan.abort()
             elif a == 'read' and reader is not None:
-                await tr.call(f'read{i}', reader.read(10))
+                await tr.call(f'read{i}', reader.read(10), chan)
             elif a == 'drain' and writer is not None:
-                await tr.call(f'drain{i}', writer.drain())
+                await tr.call(f'drain{i}', writer.drain(), chan)
             elif a == 'settle':
                 # let whatever the peer does (flood, exit, close) arrive
                 await tr.env.settle()
             elif a == 'close_wait':
                 chan.close()
-                await tr.call(f'wait_closed{i}', chan.wait_closed())
+                await tr.call(f'wait_closed{i}', chan.wait_closed(), chan)
             elif a == 'wait_closed':
                 if kind == 'process':
-                    await tr.call(f'proc_wait{i}', proc.wait())
+                    await tr.call(f'proc_wait{i}', proc.wait(), chan)
                 else:
                     chan.close()
-                    await tr.call(f'wait_closed{i}', chan.wait_closed())
+                    await tr.call(f'wait_closed{i}', chan.wait_closed(), chan)
     except (OSError, asyncssh.Error, asyncio.IncompleteReadError,
             asyncio.CancelledError):
         pass
@@ -482,6 +532,14 @@ def _run_once(case, cut, mon, viol, record_trace=None):
             # once close() was called, wait_closed() has to return whether
             # or not anybody reads, and without waiting for the harness to
             # end the whole connection below.
+            for name in tr.pending_on_closing():
+                viol.append({
+                    'mechanism': 'call_hangs_on_closed_channel',
+                    'detail': f'{name} still pending at quiescence on a '
+                              f'channel whose close has begun, with every '
+                              f'gate released and the connection still up; '
+                              f'cut={cut} script={_short(case)}'})
+                break
             for name in tr.pending():
                 if 'wait_closed' in name:
                     viol.append({
